@@ -300,3 +300,12 @@ Proof.
   intros HI E. destruct (evs_at_ok ped repl lim fuel) as [He _].
   destruct (He (fun _ => True) n c stable_true s HI I) as [_ [_ O]]. rewrite E in O. cbn in O. discriminate O.
 Qed.
+
+(* the same for the abort of Variable::set ("payload reinterpreted as another type"): a field-wise or element-wise copy never meets a
+   destination of another kind than the value copied into it -- the layout comparison before the copy has established it *)
+Theorem run_block_never_reinterprets_a_payload ped repl lim fuel bl c s : Inv s ->
+  fst (run_block ped repl lim fuel bl c s) <> Fail (FCrash "Variable::set: payload reinterpreted as another type").
+Proof.
+  intros HI E. destruct (evs_at_ok ped repl lim fuel) as [_ [_ [_ [_ [Hb _]]]]].
+  destruct (Hb (fun _ => True) bl c stable_true s HI I) as [_ [_ O]]. unfold run_block in E. rewrite E in O. cbn in O. discriminate O.
+Qed.
